@@ -117,6 +117,14 @@ class Program:
             return (None, f) if f is not None else None
         cls = rest[0]
         ci = self.classes.get(cls)
+        if ci is None and len(rest) == 2 and f"{m}.{rest[0]}" in self.functions:
+            # a function nested in a module-level function:  fggs.utils.scc.visit
+            outer = self.functions[f"{m}.{rest[0]}"]
+            for n in ast.walk(outer):
+                if isinstance(n, ast.FunctionDef) and n is not outer and n.name == rest[1]:
+                    self.lines.setdefault(qual, f"fggs/{m}.py:{n.lineno}")
+                    return (None, n)
+            return None
         if ci is None or ci.module != m:
             return None
         if len(rest) == 3 and rest[2] == "setter":
